@@ -189,7 +189,11 @@ impl Prop for C01 {
         let (max_len, max_cells, max_labels) = tier.pick((64, 10, 8), (2048, 60, 40));
         let small = content_strategy(64, 10, 8, true);
         let big = content_strategy(max_len, max_cells, max_labels, true);
-        (prop_oneof![3 => small, 1 => big], prop_oneof![1 => Just(0u64), 4 => any::<u64>()], any::<bool>(), any::<u64>())
+        // a thin slice of large archives: thousands of bytes, hundreds to thousands of annotated cells and labels (tables and text
+        // section beyond 8-bit and, in the thorough tier, 16-bit counts and offsets)
+        let (l_len, l_cells, l_labels) = tier.pick((24_000, 1_200, 500), (300_000, 70_000, 5_000));
+        let large = content_strategy(l_len, l_cells, l_labels, true);
+        (prop_oneof![60 * tier.pick(1u32, 8) => small, 20 * tier.pick(1u32, 8) => big, 1 => large], prop_oneof![1 => Just(0u64), 4 => any::<u64>()], any::<bool>(), any::<u64>())
             .prop_map(|(content, order_seed, detours, layout_seed)| Case { content, order_seed, detours, layout_seed })
             .boxed()
     }
@@ -335,6 +339,10 @@ impl Prop for C01 {
         cx.label_if(c.labels.values().any(|v| v.len() > 1), "multi-label-address");
         cx.label_if(c.labels.keys().any(|a| a % 4 != 0), "unaligned-label");
         cx.label_if(c.len() == 0, "empty-data");
+        cx.label_if(c.len() > 4096, "data>4KiB");
+        cx.label_if(c.cells.len() > 255, ">255-annotated-cells");
+        cx.label_if(c.cells.len() > 65_535, ">65535-annotated-cells");
+        cx.label_if(c.labels.values().map(|v| v.len()).sum::<usize>() > 255, ">255-labels");
         let strs: Vec<&String> = c.cells.values().filter_map(|x| if let Cell::Str(s) = x { Some(s) } else { None }).collect();
         let shared = strs.iter().enumerate().any(|(i, s)| strs[..i].contains(s)) || strs.iter().any(|s| c.labels.values().any(|v| v.contains(s)));
         cx.label_if(shared, "shared-string");
